@@ -11,6 +11,10 @@ import (
 	"encoding/json"
 	"errors"
 	"fmt"
+
+	"github.com/pingcap/kvproto/pkg/keyspacepb"
+	pdgc "github.com/tikv/pd/client/clients/gc"
+	"github.com/tikv/pd/client/constants"
 	"math"
 	"math/rand"
 	"os"
@@ -72,6 +76,19 @@ func keyOf(i int) []byte {
 	}
 	return []byte(keyTable[i])
 }
+// keyspace mode (C15): the clients are bound to keyspace ksID, the store and the cluster work on physical keys
+var ksID uint32
+
+func ksPrefix(id uint32) []byte { return []byte{'x', byte(id >> 16), byte(id >> 8), byte(id)} }
+
+// physOf is the key under which the store holds logical key i of the clients' keyspace
+func physOf(i int) []byte {
+	if ksID == 0 {
+		return keyOf(i)
+	}
+	return append(ksPrefix(ksID), keyOf(i)...)
+}
+
 func keysOf(is []int) [][]byte {
 	out := make([][]byte, len(is))
 	for i, x := range is {
@@ -151,6 +168,19 @@ type vpd struct {
 	pd.Client
 	w    *World
 	name string
+	ks   *keyspacepb.KeyspaceMeta // keyspace mode: the keyspace this client is bound to (the mock PD knows none)
+}
+
+// the mock PD implements the GC states API for the null keyspace only: hand that one out for every keyspace
+func (p *vpd) GetGCStatesClient(keyspaceID uint32) pdgc.GCStatesClient {
+	return p.Client.GetGCStatesClient(constants.NullKeyspaceID)
+}
+
+func (p *vpd) LoadKeyspace(ctx context.Context, name string) (*keyspacepb.KeyspaceMeta, error) {
+	if p.ks != nil {
+		return p.ks, nil
+	}
+	return p.Client.LoadKeyspace(ctx, name)
 }
 
 func (p *vpd) WithCallerComponent(caller.Component) pd.Client { return p }
@@ -217,7 +247,7 @@ func newWorld(outPath string, seed int64, nkeys int, splits []int) *World {
 	}
 	var sk [][]byte
 	for _, s := range splits {
-		sk = append(sk, keyOf(s))
+		sk = append(sk, physOf(s))
 	}
 	testutils.BootstrapWithMultiRegions(cluster, sk...)
 	w := &World{rec: newRecorder(outPath), clk: &vclock{physical: 1000}, mock: mock, cluster: cluster, pdc: pdc, nkeys: nkeys,
@@ -238,7 +268,7 @@ func (w *World) reset(info M, splits []int) {
 	}
 	var sk [][]byte
 	for _, s := range splits {
-		sk = append(sk, keyOf(s))
+		sk = append(sk, physOf(s))
 	}
 	testutils.BootstrapWithMultiRegions(cluster, sk...)
 	w.mock, w.cluster, w.pdc = mock, cluster, pdc
@@ -264,6 +294,17 @@ func (w *World) reset(info M, splits []int) {
 	w.rec.emit(e)
 }
 
+// the clients of a keyspace run live in keyspace ksID, except the "foreign" one which lives in the next keyspace
+func (w *World) keyspaceOf(name string) uint32 {
+	if ksID == 0 {
+		return 0
+	}
+	if name == "foreign" {
+		return ksID + 1
+	}
+	return ksID
+}
+
 func (w *World) client(name string) *Client {
 	if c, ok := w.clients[name]; ok {
 		return c
@@ -271,7 +312,26 @@ func (w *World) client(name string) *Client {
 	c := &Client{name: name, w: w}
 	g := &Gate{w: w, name: name, epoch: w.epoch}
 	c.gate = g
-	store, err := tikv.NewTestTiKVStore(w.mock, &vpd{Client: w.pdc, w: w, name: name}, func(cl tikv.Client) tikv.Client { g.Client = cl; return g }, nil, 0)
+	var store *tikv.KVStore
+	var err error
+	if name == "foreign" {
+		// the tenant of the neighbouring keyspace is not part of the recorded history: no gate
+		id := w.keyspaceOf(name)
+		meta := keyspacepb.KeyspaceMeta{Keyspace: &keyspacepb.KeyspaceMeta_Id{Id: id}, Name: fmt.Sprintf("ks%d", id), State: keyspacepb.KeyspaceState_ENABLED}
+		store, err = tikv.NewTestKeyspaceTiKVStore(w.mock, &vpd{Client: w.pdc, w: w, name: name, ks: &meta}, nil, nil, 0, meta)
+		if err != nil {
+			panic(err)
+		}
+		c.store = store
+		w.clients[name] = c
+		return c
+	}
+	if id := w.keyspaceOf(name); id != 0 {
+		meta := keyspacepb.KeyspaceMeta{Keyspace: &keyspacepb.KeyspaceMeta_Id{Id: id}, Name: fmt.Sprintf("ks%d", id), State: keyspacepb.KeyspaceState_ENABLED}
+		store, err = tikv.NewTestKeyspaceTiKVStore(w.mock, &vpd{Client: w.pdc, w: w, name: name, ks: &meta}, func(cl tikv.Client) tikv.Client { g.Client = cl; return g }, nil, 0, meta)
+	} else {
+		store, err = tikv.NewTestTiKVStore(w.mock, &vpd{Client: w.pdc, w: w, name: name}, func(cl tikv.Client) tikv.Client { g.Client = cl; return g }, nil, 0)
+	}
 	if err != nil {
 		panic(err)
 	}
@@ -288,20 +348,28 @@ func (w *World) proj() M {
 	locks := make([]M, w.nkeys)
 	writes := make([][]M, w.nkeys)
 	for i := 1; i <= w.nkeys; i++ {
-		info := dbg.MvccGetByKey(keyOf(i))
+		info := dbg.MvccGetByKey(physOf(i))
 		locks[i-1] = M{"ts": 0, "primary": 0, "kind": "None"}
 		writes[i-1] = []M{}
 		if info == nil {
 			continue
 		}
 		if l := info.GetLock(); l != nil {
-			locks[i-1] = M{"ts": cts(l.StartTs), "primary": keyIdx(l.Primary), "kind": lockKind(l.Type)}
+			locks[i-1] = M{"ts": cts(l.StartTs), "primary": keyIdx(logicalOf(l.Primary)), "kind": lockKind(l.Type)}
 		}
 		for _, wr := range info.GetWrites() {
 			writes[i-1] = append(writes[i-1], M{"type": wr.Type.String(), "start": cts(wr.StartTs), "commit": cts(wr.CommitTs), "val": valInt(wr.ShortValue)})
 		}
 	}
 	return M{"lock": locks, "writes": writes}
+}
+
+// logicalOf strips the clients' keyspace prefix from a key read straight from the store
+func logicalOf(k []byte) []byte {
+	if ksID != 0 && len(k) >= 4 && string(k[:4]) == string(ksPrefix(ksID)) {
+		return k[4:]
+	}
+	return k
 }
 
 func lockKind(op kvrpcpb.Op) string {
@@ -338,12 +406,12 @@ func (w *World) split(atKey int) {
 		return
 	}
 	w.splitAt[atKey] = true
-	region, _, _, _ := w.cluster.GetRegionByKey(keyOf(atKey))
+	region, _, _, _ := w.cluster.GetRegionByKey(physOf(atKey))
 	if region == nil {
 		return
 	}
 	newID, peerID := w.cluster.AllocID(), w.cluster.AllocID()
-	w.cluster.Split(region.Id, newID, keyOf(atKey), []uint64{peerID}, peerID)
+	w.cluster.Split(region.Id, newID, physOf(atKey), []uint64{peerID}, peerID)
 	w.rec.emit(M{"ev": "split", "at": atKey})
 }
 
